@@ -88,6 +88,12 @@ func encTo(sb *strings.Builder, v interface{}, depth int, onPath map[uintptr]boo
 	case string:
 		sb.WriteString(encStr(x))
 	case []interface{}:
+		if x == nil && depth > 0 {
+			// a nil list INSIDE a value is not the empty list (it encodes as JSON null, it is not
+			// reflect.DeepEqual to []interface{}{}); the models never produce one
+			sb.WriteString("?nil-list")
+			return
+		}
 		sb.WriteString("[ ")
 		for _, e := range x {
 			encTo(sb, e, depth+1, onPath)
@@ -111,6 +117,10 @@ func encTo(sb *strings.Builder, v interface{}, depth int, onPath map[uintptr]boo
 
 // onPath: maps currently being printed (cycle detection by identity).
 func encMap(sb *strings.Builder, x map[string]interface{}, depth int, encOnPath map[uintptr]bool) {
+	if x == nil && depth > 0 {
+		sb.WriteString("?nil-map")
+		return
+	}
 	id := reflect.ValueOf(x).Pointer()
 	if x != nil {
 		if encOnPath[id] {
